@@ -125,6 +125,14 @@ func (l *VLink) SendPriority(f frame.Frame) error { return l.send(f, true) }
 func (l *VLink) Send(f frame.Frame) error { return l.send(f, false) }
 
 func (l *VLink) send(f frame.Frame, prio bool) error {
+	if l.closing {
+		// a closed link goes nowhere (the real link's queue is no longer served): the frame is lost
+		l.mesh.mu.Lock()
+		l.mesh.SentOnClosedLink++
+		l.mesh.mu.Unlock()
+		f.ReturnToPool()
+		return nil
+	}
 	data, err := f.FrameDataWithMargins(0, 0)
 	if err != nil {
 		return err
@@ -184,6 +192,8 @@ type Mesh struct {
 	// Counters.
 	Panics         []error
 	LostForMargins int
+	// SentOnClosedLink counts frames handed to a link object after it was closed.
+	SentOnClosedLink int
 	KeepLog        bool
 }
 
